@@ -56,12 +56,33 @@ def _utime(path, times=None, *args, **kwargs):
     return _real_utime(path, times, *args, **kwargs)
 
 
+_real_replace = os.replace
+
+
+def _replace(src, dst, *args, **kwargs):
+    w = ControlledPool.world
+    kind = None
+    if w is not None and isinstance(dst, str) and os.path.abspath(dst).startswith(w.path + os.sep):
+        n = w.next_index("rp")
+        kind = w.plan.get(("rp", n))
+        w.log.append(("replace", os.path.basename(dst), n))
+        if kind == "crash_before_replace":
+            w.fired.append(("rp", n, kind, os.path.basename(dst)))
+            w.crash()
+    r = _real_replace(src, dst, *args, **kwargs)
+    if kind == "crash_after_replace":
+        w.fired.append(("rp", n, kind, os.path.basename(dst)))
+        w.crash()
+    return r
+
+
 def patch_process():
     """Rebind the seams (idempotent)."""
     global _patched
     if _patched:
         return
     os.utime = _utime
+    os.replace = _replace
     warnings.simplefilter("ignore")
     import logging
 
@@ -130,8 +151,9 @@ class InjectedIOError(IOError):
 class ScriptedResource:
     """RemoteResource whose behaviour is scripted by a fault plan.
 
-    plan: dict download_index -> kind, download_index counts calls of the download function in
-    this World (0-based, in the order the downloads *start*).  kinds:
+    plan: dict (site, index) -> kind; for site "dl" the index counts calls of the download
+    function in this World since the plan was installed (0-based, in the order the downloads
+    *start*).  kinds for "dl":
        'raise_before'  IOError before the file is opened
        'raise_half'    IOError after half of the bytes were written (file left as the code leaves it)
        'crash_open' / 'crash_half' / 'crash_done'   simulated process death at that point
@@ -151,8 +173,9 @@ class ScriptedResource:
         def _download(uri, filepath):
             n = world.next_download_index()
             name = base_of(uri)
+            _tls.uri = uri
             world.log.append(("download", name, n))
-            kind = world.plan.get(n)
+            kind = world.plan.get(("dl", n))
             world.point("dl-enter", n)
             if name not in REMOTE:
                 from ocean_science_utilities.filecache.remote_resources import (
@@ -161,7 +184,7 @@ class ScriptedResource:
 
                 raise _RemoteResourceUriNotFound(f"{uri} not found")
             if kind == "raise_before":
-                world.fired.append((n, kind))
+                world.fired.append(("dl", n, kind, name))
                 raise InjectedIOError(f"injected failure before write of {uri}")
             data = REMOTE[name]
             half = len(data) // 2
@@ -169,16 +192,16 @@ class ScriptedResource:
             try:
                 world.written.append(filepath)
                 if kind == "crash_open":
-                    world.fired.append((n, kind))
+                    world.fired.append(("dl", n, kind, name))
                     world.crash()
                 world.point("dl-open", n)
                 fp.write(data[:half])
                 fp.flush()
                 if kind == "crash_half":
-                    world.fired.append((n, kind))
+                    world.fired.append(("dl", n, kind, name))
                     world.crash()
                 if kind == "raise_half":
-                    world.fired.append((n, kind))
+                    world.fired.append(("dl", n, kind, name))
                     raise InjectedIOError(f"injected failure after half of {uri}")
                 world.point("dl-half", n)
                 fp.write(data[half:])
@@ -187,7 +210,7 @@ class ScriptedResource:
                 if os.path.exists(filepath):
                     stamp(filepath)
             if kind == "crash_done":
-                world.fired.append((n, kind))
+                world.fired.append(("dl", n, kind, name))
                 world.crash()
             world.point("dl-done", n)
             return True
@@ -226,6 +249,18 @@ class Scheduler:
         self.trace = []
         self.error = None
         self.threads = []
+        self.dead = False
+
+    def kill(self):
+        """The (simulated) process died or the execution is abandoned: unwind every parked thread."""
+        self.dead = True
+        for sem in list(self.sems.values()):
+            for _ in range(4):
+                sem.release()
+
+    def join(self, timeout=2.0):
+        for th in self.threads:
+            th.join(timeout)
 
     # -- registration -----------------------------------------------------------------------
     def add_thread(self, tid, target):
@@ -234,13 +269,17 @@ class Scheduler:
 
         def body():
             self.sems[tid].acquire()
+            if self.dead:
+                self.state[tid] = "done"
+                return
             try:
                 target()
             except BaseException as exc:  # noqa
                 self.trace.append(("thread-exc", tid, repr(exc)))
             finally:
                 self.state[tid] = "done"
-                self._handoff(tid, finished=True)
+                if not self.dead:
+                    self._handoff(tid, finished=True)
 
         th = threading.Thread(target=body, daemon=True)
         self.threads.append(th)
@@ -282,6 +321,8 @@ class Scheduler:
 
     def _handoff(self, me, finished=False, blocked_pred=None, label=""):
         """Called by the running thread `me` at a scheduling point."""
+        if self.dead:
+            raise Crash()
         if blocked_pred is not None:
             self.state[me] = "blocked"
             self.wait_pred[me] = blocked_pred
@@ -316,6 +357,8 @@ class Scheduler:
         self.sems[nxt].release()
         if not finished:
             self.sems[me].acquire()
+            if self.dead:
+                raise Crash()
             self.state[me] = "running"
             if self.error is not None and me == self.CONSUMER:
                 raise self.error
@@ -485,15 +528,15 @@ class World:
         self.fired = []
         self.log = []
         self.written = []
-        self.n_download = 0
+        self.counters = {}
         self._lock = threading.Lock()
         self.api = api
         self.use_sched = parallel if use_sched is None else use_sched
         self.sched = Scheduler(prefix) if self.use_sched else None
         self._tid = 0
         self.crashed = None
-        self.validators = {}
-        self.postprocessors = {}
+        self.validators = {"v": self._validate}
+        self.postprocessors = {"p": self._postprocess}
         if self.use_sched:
             cache_object.ThreadPool = ControlledPool
         ControlledPool.world = self
@@ -505,10 +548,57 @@ class World:
         return self._tid
 
     def next_download_index(self):
+        return self.next_index("dl")
+
+    def next_index(self, site):
         with self._lock:
-            n = self.n_download
-            self.n_download += 1
+            n = self.counters.get(site, 0)
+            self.counters[site] = n + 1
             return n
+
+    def install_plan(self, plan):
+        """Install a fault plan; call indices count from now."""
+        self.plan = dict(plan)
+        self.counters = {}
+        self.fired = []
+
+    # scripted directive functions -------------------------------------------------------------
+    def _postprocess(self, path):
+        n = self.next_index("pp")
+        kind = self.plan.get(("pp", n))
+        self.log.append(("postprocess", os.path.basename(path), n))
+        self.point("pp-enter", n)
+        name = base_of(getattr(_tls, "uri", SCHEME + "?"))
+        if kind == "pp_raise_before":
+            self.fired.append(("pp", n, kind, name))
+            raise InjectedIOError("injected failure in post-processing (file untouched)")
+        data = read_noatime(path)
+        if kind in ("pp_raise_half", "pp_crash_half"):
+            with open(path, "wb") as fp:
+                fp.write(data[: len(data) // 2] + b"|p")
+            stamp(path)
+            self.fired.append(("pp", n, kind, name))
+            if kind == "pp_crash_half":
+                self.crash()
+            raise InjectedIOError("injected failure in post-processing (file half rewritten)")
+        with open(path, "wb") as fp:
+            fp.write(data + b"|pp")
+        stamp(path)
+        self.point("pp-done", n)
+        return None
+
+    def _validate(self, path):
+        n = self.next_index("val")
+        kind = self.plan.get(("val", n))
+        self.log.append(("validate", os.path.basename(path), n))
+        if kind == "invalid":
+            self.fired.append(("val", n, kind, os.path.basename(path)))
+            return False
+        if kind == "val_raise":
+            self.fired.append(("val", n, kind, os.path.basename(path)))
+            raise InjectedIOError("injected failure in validation")
+        # like a real validator: open the file (IOError if it is gone) and accept non-empty content
+        return len(read_noatime(path)) > 0
 
     def point(self, label, n):
         if self.sched is None:
@@ -533,6 +623,8 @@ class World:
                 _real_utime(os.path.join(snap, os.path.relpath(os.path.join(root, f), self.path)),
                             (st.st_atime, st.st_mtime))
         self.crashed = snap
+        if self.sched is not None:
+            self.sched.kill()
         raise Crash()
 
     def open(self, evict_on_start=False):
@@ -616,6 +708,9 @@ class World:
         return f.startswith("cachefile_") and f.endswith("_cachefile")
 
     def close(self):
+        if self.sched is not None:
+            self.sched.kill()
+            self.sched.join()
         shutil.rmtree(self.path, ignore_errors=True)
         if self.crashed:
             shutil.rmtree(self.crashed, ignore_errors=True)
